@@ -389,6 +389,7 @@ func runScenarios(c *vlib.Ctx, cfgs []config) {
 	c.Add(states, trans, states)
 	c.NontrivialN(states)
 	c.Extra("scenario_runs", states)
+	runConditions(c)
 }
 
 func reportScenario(c *vlib.Ctx, v *violation, w scenarioWitness) {
@@ -399,7 +400,11 @@ func reportScenario(c *vlib.Ctx, v *violation, w scenarioWitness) {
 		c.EngineError("scenario %s %v n=%d %s: %s", w.Scenario, w.Config, w.N, w.Variant, v.detail)
 		return
 	}
-	c.Violate(v.clause, v.site, v.disc, fmt.Sprintf("scenario %s, configuration %v: %s", w.Scenario, w.Config, v.detail), w)
+	where := ""
+	if w.Config.Backend != "" {
+		where = fmt.Sprintf(", configuration %v", w.Config)
+	}
+	c.Violate(v.clause, v.site, v.disc, fmt.Sprintf("scenario %s%s: %s", w.Scenario, where, v.detail), w)
 }
 
 func replayScenario(c *vlib.Ctx, w scenarioWitness) {
@@ -430,6 +435,8 @@ func replayScenario(c *vlib.Ctx, w scenarioWitness) {
 			fmt.Println("replay: no violation")
 		}
 		reportScenario(c, v, w)
+	case "condition":
+		replayCondition(c, w.Variant)
 	default:
 		c.EngineError("replay: unknown scenario %q", w.Scenario)
 	}
